@@ -20,13 +20,14 @@ TRUSTED_BASE = [
 
 class Stream:
     def __init__(self, name, stream, gen, args=(), flavours=("rel",), spec=None, spec_args=None, nontrivial=None,
-                 L=None, search_gen=None, timeout=300, model_args=None, exhaustive=False, rule=""):
+                 L=None, search_gen=None, timeout=300, model_args=None, exhaustive=False, rule="", env=None):
         self.name, self.stream, self.gen, self.args = name, stream, gen, list(args)
         self.flavours, self.spec, self.spec_args = flavours, spec, spec_args
         self.nontrivial = nontrivial or (lambda case, line: True)
         self.L, self.search_gen, self.timeout = L, search_gen, timeout
         self.model_args = model_args
         self.exhaustive, self.rule = exhaustive, rule
+        self.env = env
 
 class Prop:
     def __init__(self, pid, coq, streams, level_note="", extra=None, judge=None):
@@ -103,7 +104,7 @@ def run_one_stream(ctx, s, cases, model_stream=None, flavours=None):
     dis, impl_by = [], {}
     for fl in (flavours or s.flavours):
         hx = ctx.hx(fl, s.L)
-        impl = corr.run_stream([hx, s.stream] + [str(a) for a in s.args], cases, timeout=s.timeout)
+        impl = corr.run_stream([hx, s.stream] + [str(a) for a in s.args], cases, timeout=s.timeout, env=s.env)
         impl_by[fl] = impl
         for (i, c, a, b) in corr.compare(cases, impl, model_lines):
             dis.append((fl, i, c, a, b))
@@ -275,7 +276,7 @@ def search(ctx, prop, known, known_hits):
         sargs = s.spec_args if (s.spec and s.spec_args is not None) else (s.model_args if s.model_args is not None else s.args)
         ref = corr.run_stream(corr.model_cmd(ref_stream, sargs), cases, timeout=s.timeout)
         for fl in s.flavours:
-            impl = corr.run_stream([ctx.hx(fl, s.L), s.stream] + [str(a) for a in s.args], cases, timeout=s.timeout)
+            impl = corr.run_stream([ctx.hx(fl, s.L), s.stream] + [str(a) for a in s.args], cases, timeout=s.timeout, env=s.env)
             for (i, c, a, b) in corr.compare(cases, impl, ref):
                 k = matches_known(known, prop.pid, s.name, c, a)
                 if k:
